@@ -61,11 +61,19 @@ def configs(tier):
     return cs
 
 
+def extras(chk):
+    rowwise_decisions(chk)
+    if len(chk.violations) < 5:
+        design_level_search(chk, which="C02")
+
+
 def run(chk):
-    return run_search_check(chk, "C02", "C02", configs(chk.tier), e2e_oracle, extra=rowwise_decisions, extra_models=["Model/RowSearch"])
+    return run_search_check(chk, "C02", "C02", configs(chk.tier), e2e_oracle, extra=extras, extra_models=["Model/RowSearch"])
 
 
 def replay(payload):
     from lib import Check
     chk = Check("C02", "quick", payload.get("seed", 0))
+    if payload.get("kind") == "design-stub":
+        return "RERUN"
     return replay_common(chk, payload, "C02", e2e_oracle)
